@@ -85,7 +85,10 @@ func (w OSFileWriter) IsTerminal() bool { return term.IsTerminal(int(w.File.Fd()
 func writeBase64(bytes []byte, w TerminalWriter) error {
 	enc := base64.NewEncoder(base64.StdEncoding, w)
 	_, err := enc.Write(bytes)
-	enc.Close()
+	// Close writes the final, partial group: its error counts as much as Write's.
+	if cerr := enc.Close(); err == nil {
+		err = cerr
+	}
 	return err
 }
 
